@@ -208,6 +208,10 @@ class YowNoiseLayer(YowLayer):
         :rtype:
         """
         data = bytes(data) if type(data) is not bytes else data
+        if len(data) + 16 >= 16777216:
+            # the segments layer refuses it, but only after encrypting has advanced the cipher's counter,
+            # and the peer could not decrypt any later frame
+            raise ValueError("data too large to write; length=%d" % len(data))
         self._wa_noiseprotocol.send(data)
 
     def _flush_incoming_buffer(self, session=None):
